@@ -27,7 +27,7 @@ def retok(toks):
     while i < len(toks):
         t = toks[i]
         n = toks[i + 1] if i + 1 < len(toks) else None
-        if t[0] == "op" and n == ("op", "=") and t[1] in ("!", "=") :
+        if t[0] == "op" and n == ("op", "=") and t[1] in ("!", "=", "<", ">") and not (out and out[-1] == ("op", t[1])):
             out.append(("op", t[1] + "="))
             i += 2
         elif t[0] == "op" and n == ("op", "=") and t[1] in ("^", "|", "&", "+", "-", "*", "<<", ">>") and (i + 2 < len(toks) and toks[i + 2] != ("op", "=")):
@@ -40,7 +40,37 @@ def retok(toks):
 
 
 class P(BaseP):
-    LEVELS = [["==", "!="], ["|"], ["^"], ["&"], ["<<", ">>"], ["+", "-"], ["*", "/", "%"]]
+    LEVELS = [["==", "!=", ">=", "<=", "<", ">"], ["|"], ["^"], ["&"], ["<<", ">>"], ["+", "-"], ["*", "/", "%"]]
+
+    def primary(self):
+        # `<T>::f(args)`
+        if self.at("<") and self.peek(1)[0] == "id" and self.peek(2) == ("op", ">") and self.peek(3) == ("op", "::"):
+            self.eat("op")
+            ty = self.eat("id")
+            self.eat("op", ">")
+            self.eat("op", "::")
+            name = ty + "::" + self.eat("id")
+            self.eat("op", "(")
+            return ("call", name, self.args(")"))
+        return BaseP.primary(self)
+
+    def postfix(self, e):
+        while True:
+            if self.at("["):
+                self.eat("op")
+                idx = self.expr()
+                self.eat("op", "]")
+                e = ("index", e, idx)
+            elif self.at("."):
+                self.eat("op")
+                m = self.eat("id")
+                if self.at("("):
+                    self.eat("op", "(")
+                    e = ("mcall", e, m, self.args(")"))
+                else:
+                    e = ("field", e, m)
+            else:
+                return e
 
     def unary(self):
         if self.at("*"):
@@ -70,7 +100,7 @@ class P(BaseP):
                     tail = s[1]
                 else:
                     stmts.append(s)
-            elif s[0] in ("for", "if"):
+            elif s[0] in ("for", "if", "loop"):
                 stmts.append(s)
             else:
                 raise TranslateError("missing `;` after %r" % (s,))
@@ -81,6 +111,12 @@ class P(BaseP):
         if t == ("id", "return"):
             self.eat("id")
             return ("return", self.expr())
+        if t == ("id", "break"):
+            self.eat("id")
+            return ("break", self.expr())
+        if t == ("id", "loop"):
+            self.eat("id")
+            return ("loop", self.block())
         if t in (("id", "static"), ("id", "const")):
             self.eat("id")
             name = self.eat("id")
@@ -594,16 +630,218 @@ UNITS = [("Urandom.Generated.Scalar.splitmix", "src/rng/splitmix64.rs", ["mix64"
          ("Urandom.Generated.Scalar.float01", "src/distr/float01.rs", ["replace_exponent_f32", "replace_exponent_f64"])]
 
 
+GROUPS = [("Scalar", ["splitmix", "wyrand", "xoshiro", "util"], "src/rng/{splitmix64,wyrand,xoshiro256,util}.rs"),
+          ("ScalarFloat01", ["float01"], "src/distr/float01.rs"),
+          ("ScalarUniformInt", ["uniform_int"], "src/distr/uniform/int.rs")]
+
+
 def generate(repo, out_dir, write):
-    parts = ["/- GENERATED by tools/extract_scalar.py from src/rng/{splitmix64,wyrand,xoshiro256,util}.rs on every run - do not edit. -/",
-             "set_option linter.unusedVariables false", "namespace Urandom.Generated.Scalar", ""]
-    for ns, rel, wanted in UNITS:
-        parts.append(Unit(ns, os.path.join(repo, rel), wanted).lean())
-    parts.append("end Urandom.Generated.Scalar\n")
-    write(os.path.join(out_dir, "Scalar.lean"), "\n".join(parts))
+    """one generated file per group of sources, so that a file the translator cannot read breaks the obligations about that group only"""
+    for fname, members, what in GROUPS:
+        parts = ["/- GENERATED by tools/extract_scalar.py from %s on every run - do not edit. -/" % what,
+                 "set_option linter.unusedVariables false", "namespace Urandom.Generated.Scalar", ""]
+        try:
+            for ns, rel, wanted in UNITS:
+                if ns.split(".")[-1] in members:
+                    parts.append(Unit(ns, os.path.join(repo, rel), wanted).lean())
+            if "uniform_int" in members:
+                parts.append(uniform_int(repo)[0])
+            parts.append("end Urandom.Generated.Scalar\n")
+            text = "\n".join(parts)
+        except (TranslateError, KeyError, IndexError, ValueError, StopIteration) as e:
+            msg = ("%s: %s" % (type(e).__name__, e)).replace("-/", "- /")
+            text = ("/- tools/extract_scalar.py could not translate the current source: %s -/\n"
+                    "namespace Urandom.Generated.Scalar\ndef translation_failed_%s : Nat := translation_of_the_current_source_failed\nend Urandom.Generated.Scalar\n" % (msg, fname))
+        write(os.path.join(out_dir, fname + ".lean"), text)
 
 
 if __name__ == "__main__":
     repo = os.environ.get("VERIF_REPO", "/repo")
     for ns, rel, wanted in UNITS:
         print(Unit(ns, os.path.join(repo, rel), wanted).lean())
+
+
+# ------------------------------------------------------------------------------------------------ the integer sampler (macro-generated)
+SIGNED = {"i8": 8, "i16": 16, "i32": 32, "i64": 64, "isize": 64}
+UNSIGNED = {"u8": 8, "u16": 16, "u32": 32, "u64": 64, "usize": 64, "u128": 128}
+
+
+class LoopFn(Fn):
+    """`fn sample(&self, rand) -> T { <lets>; loop { let value = rand.next_uXX(); ... break e; ... } }` of one instantiation of
+    `impl_uniform_int!`: translated into `<name>_init` (the values of the variables the loop reads, from the fields of `self`) and
+    `<name>_iter` (one trip round the loop as a function of the drawn word: `.inl result` = `break result`, `.inr vars` = go round again
+    with these values of the variables the loop assigns)."""
+
+    def __init__(self, unit, name, fields, ret, body_toks, suffix):
+        self.u, self.name, self.suffix = unit, name, suffix
+        self.params, self.ret = [], ret
+        self.stmts, self.tail = P(body_toks).body()
+        self.env, self.muts, self.sig = {}, [], []
+        for fname, t in fields:
+            self.env["self." + fname] = ("var", "self_" + fname, t)
+            self.sig.append("(self_%s : %s)" % (fname, lean_ty(t)))
+
+    def expr(self, e, expect=None):
+        if e[0] == "field" and e[1] == ("id", "self"):
+            v = self.env["self." + e[2]]
+            return v[1], v[2]
+        if e[0] == "cast":
+            inner = e[1]
+            t, ty = self.expr(inner, None if inner[0] != "num" else self.cast_ty(e[2][0]))
+            to = self.cast_ty(e[2][0])
+            if ty[0] == "i" and to[1] > ty[1]:
+                raise TranslateError("widening cast from a signed type")
+            txt = t if to[1] == ty[1] else "(%s).setWidth %d" % (t, to[1])
+            return txt, to
+        if e[0] == "bin" and e[1] in (">=", "<=", "<", ">"):
+            ty = self.typed(e[2]) or self.typed(e[3])
+            l, lt = self.expr(e[2], ty)
+            r, _ = self.expr(e[3], lt)
+            if lt[0] != "u":
+                raise TranslateError("ordering comparison of a signed value")
+            return "(%s %s %s)" % (l, {">=": "≥", "<=": "≤", "<": "<", ">": ">"}[e[1]], r), ("bool",)
+        if e[0] == "bin" and e[1] == "%":
+            ty = self.typed(e[2]) or self.typed(e[3]) or expect
+            l, lt = self.expr(e[2], ty)
+            r, _ = self.expr(e[3], lt)
+            return "(%s %% %s)" % (l, r), lt
+        return Fn.expr(self, e, expect)
+
+    def cast_ty(self, name):
+        if name in SIGNED:
+            return ("i", SIGNED[name])
+        if name in UNSIGNED:
+            return ("u", UNSIGNED[name])
+        raise TranslateError("cast to %s" % name)
+
+    def typed(self, e):
+        if e[0] == "field" and e[1] == ("id", "self"):
+            return self.env["self." + e[2]][2]
+        if e[0] == "cast":
+            return self.cast_ty(e[2][0]) if (e[2][0] in SIGNED or e[2][0] in UNSIGNED) else None
+        return Fn.typed(self, e)
+
+    def flow(self, stmts, carried, depth):
+        """statements of the loop body -> Lean text of type Sum ret carried; the statements after an `if` are continued in both branches"""
+        ind = "  " * depth
+        if not stmts:
+            names = [self.env[c][1] for c in carried]
+            return ind + ".inr %s" % (names[0] if len(names) == 1 else "(%s)" % ", ".join(names))
+        s, rest = stmts[0], stmts[1:]
+        if s[0] == "break":
+            t, ty = self.expr(s[1], self.ret)
+            return ind + ".inl %s" % (t if re.match(r"^\w+$", t) else "(%s)" % t)
+        if s[0] == "if":
+            c, _ = self.expr(s[1])
+            saved = dict(self.env)
+            a = self.flow(list(s[2][1]) + ([("break", s[2][2])] if s[2][2] is not None else []) + list(rest), carried, depth + 1)
+            self.env = dict(saved)
+            b = self.flow((list(s[3][1]) if s[3] else []) + list(rest), carried, depth + 1)
+            self.env = saved
+            return "%sif %s then\n%s\n%selse\n%s" % (ind, c, a, ind, b)
+        saved_lines = self.lines
+        self.lines = []
+        self.run([s])
+        mine = self.lines
+        self.lines = saved_lines
+        return "\n".join(ind + l for l in mine) + ("\n" if mine else "") + self.flow(rest, carried, depth)
+
+    def lean(self):
+        self.lines, self.result, self.aux = [], None, []
+        pre = [s for s in self.stmts if s[0] != "loop"]
+        loops = [s for s in self.stmts if s[0] == "loop"]
+        if len(loops) != 1 or self.stmts[-1][0] != "loop" or self.tail is not None:
+            raise TranslateError("%s: expected <lets>; loop { .. }" % self.name)
+        self.run(pre)
+        init_lines = self.lines
+        body = list(loops[0][1][1]) + ([("break", loops[0][1][2])] if loops[0][1][2] is not None else [])
+        # the draw: exactly one, first
+        d = body[0]
+        if not (d[0] == "let" and d[1][0] == "pid" and d[2][0] == "mcall" and d[2][1] == ("id", "rand") and d[2][2] in ("next_u32", "next_u64") and not d[2][3]):
+            raise TranslateError("%s: the loop does not start with one draw" % self.name)
+        wbits = 32 if d[2][2] == "next_u32" else 64
+        if any("rand" in repr(x) for x in body[1:]):
+            raise TranslateError("%s: a second draw inside the loop" % self.name)
+        outer = [n for n in self.env if not n.startswith("self.")]
+        carried = [n for n in self.targets(body[1:], []) if n in outer]
+        readonly = [n for n in outer if n not in carried]
+        vars_sig = " ".join("(%s : %s)" % (self.env[n][1], lean_ty(self.env[n][2])) for n in readonly + carried)
+        init_tuple = [self.env[n][1] for n in readonly + carried]
+        out = "def %s_init_%s %s :=\n%s\n  %s\n\n" % (self.name, self.suffix, " ".join(self.sig), "\n".join("  " + l for l in init_lines),
+                                                   init_tuple[0] if len(init_tuple) == 1 else "(%s)" % ", ".join(init_tuple))
+        self.env[d[1][1]] = ("var", d[1][1], ("u", wbits))
+        ctys = [lean_ty(self.env[c][2]) for c in carried]
+        self.lines = []
+        text = self.flow(body[1:], carried, 1)
+        out += "def %s_iter_%s %s %s (%s : BitVec %d) : Sum (%s) (%s) :=\n%s\n" % (
+            self.name, self.suffix, " ".join(self.sig), vars_sig, d[1][1], wbits, lean_ty(self.ret), " × ".join(ctys), text)
+        return out
+
+
+def lean_ty_i(t):
+    return "BitVec %d" % t[1]
+
+
+_old_lean_ty = lean_ty
+
+
+def lean_ty(t):          # signed integers are their bit patterns
+    if t[0] == "i":
+        return "BitVec %d" % t[1]
+    return _old_lean_ty(t)
+
+
+def uniform_int(repo):
+    path = os.path.join(repo, "src/distr/uniform/int.rs")
+    src = open(path).read()
+    toks = retok(tokenize(src))
+    # the macro and its invocations (the ones for 32-bit targets are left out: the model is the 64-bit configuration)
+    i = next(k for k, t in enumerate(toks) if t == ("id", "macro_rules"))
+    if toks[i + 2] != ("id", "impl_uniform_int"):
+        raise TranslateError("int.rs: macro impl_uniform_int not found")
+    j = matching(toks, i + 3)
+    inner = toks[i + 4:j]
+    pe = matching(inner, 0)
+    params = [p[0][1] for p in split_top(inner[1:pe], ",") if p]
+    be = matching(inner, pe + 2)
+    body = inner[pe + 3:be]
+    unit = Unit("Urandom.Generated.Scalar.uniform_int", path, ["wmul32", "wmul64"])
+    out = ["namespace uniform_int", unit.fn("wmul32").lean(), unit.fn("wmul64").lean()]
+    insts = []
+    k = j + 1
+    while k < len(toks):
+        if toks[k] == ("id", "impl_uniform_int") and toks[k + 1] == ("op", "!"):
+            e = matching(toks, k + 2)
+            args = [a for a in split_top(toks[k + 3:e], ",") if a]
+            # a preceding #[cfg(target_pointer_width = "..")] - strings are dropped by the tokenizer, so look at the source text
+            insts.append((args, k))
+            k = e + 1
+        else:
+            k += 1
+    # cfg attributes: by order of appearance in the text
+    cfgs = re.findall(r'(#\[cfg\(target_pointer_width\s*=\s*"(\d+)"\)\]\s*)?impl_uniform_int!\s*\{\s*(\w+)', re.sub(r"//[^\n]*", "", src))
+    if len(cfgs) != len(insts):
+        raise TranslateError("int.rs: cannot match the cfg attributes of the macro invocations")
+    seen = []
+    for (args, _), (_, width, tyname) in zip(insts, cfgs):
+        if width == "32":
+            continue
+        sub = dict(zip(params, args))
+        exp = []
+        for t in body:
+            exp += sub[t[1]] if t[0] == "id" and t[1] in sub else [t]
+        # fn sample in the expansion
+        f = next(n for n in range(len(exp)) if exp[n] == ("id", "fn") and exp[n + 1] == ("id", "sample"))
+        b0 = next(n for n in range(f, len(exp)) if exp[n] == ("op", "{"))
+        b1 = matching(exp, b0)
+        tname = args[0][0][1]
+        tt = ("i", SIGNED[tname]) if tname in SIGNED else ("u", UNSIGNED[tname])
+        lf = LoopFn(unit, "sample", [("base", tt), ("range", tt)], tt, exp[b0 + 1:b1], tname)
+        out.append(lf.lean())
+        seen.append(tname)
+    out.append("end uniform_int\n")
+    return "\n".join(out), seen
+
+
+if __name__ == "__main__" and "--uniform" in sys.argv:
+    print(uniform_int(os.environ.get("VERIF_REPO", "/repo"))[0])
